@@ -1,12 +1,12 @@
 package main
 
 import (
-	"strings"
 	"context"
 	"fmt"
 	"io"
 	"runtime"
 	"sort"
+	"strings"
 	"sync"
 	"time"
 
@@ -47,6 +47,7 @@ func keyOf(n int) interface{} {
 		return &structKeyV // the address of a struct
 	}
 }
+
 type otherPeerAddr struct{}
 
 func (otherPeerAddr) Network() string { return "other" }
